@@ -1152,6 +1152,7 @@ class TrStream:
         self.fn = fn
         self.globals = fn.__globals__
         self.method = method
+        self.clause_defs = []
         self.env = {}          # local name -> ("bytes", lean) | ("str", lean)
 
     def is_self_attr(self, node, attr) -> bool:
@@ -1253,7 +1254,14 @@ class TrStream:
                 if len(hb) != 1:
                     raise Untranslatable("except clause that does more than raise")
                 clauses.append("([" + ", ".join("." + self.exc_name(e) for e in elts) + "], " + self.lib_raise(hb[0]) + ")")
-            term = f"(TM.catchMap {inner} [" + ", ".join(clauses) + "])"
+            if self.method == "read":
+                # the clause lists of `read` are named, so that the equality proof can relate them to the generated table
+                # (`Gen.excStreamReadBlocks`) whatever their shape
+                name = f"readClauses{len(self.clause_defs)}"
+                self.clause_defs.append(f"def {name} : List (List PyExn × TErr) := [" + ", ".join(clauses) + "]")
+                term = f"(TM.catchMap {inner} {name})"
+            else:
+                term = f"(TM.catchMap {inner} [" + ", ".join(clauses) + "])"
         if returns:
             if rest:
                 raise Untranslatable("code after return")
@@ -1320,7 +1328,7 @@ def translate_stream(repo: str):
             fn = mod.StreamTransport.__dict__[name]
             tr = TrStream(fn, name)
             text = tr.block(fn_ast(fn).body)
-            out[name] = {"lean": f"def {name} {binders} : {typ} :=\n  {text}"}
+            out[name] = {"lean": "".join(d + "\n\n" for d in tr.clause_defs) + f"def {name} {binders} : {typ} :=\n  {text}"}
         except (Untranslatable, KeyError, TypeError, OSError, AttributeError, IndexError) as err:
             out[name] = {"error": f"{type(err).__name__}: {err}"[:300]}
     return out
